@@ -37,7 +37,8 @@ Put(f, k, v) == [x \in DOMAIN f \cup {k} |-> IF x = k THEN v ELSE f[x]]
 Tags(conds) == { c[2] : c \in { x \in conds : x[1] } }
 
 NoCfg == [secrets |-> <<>>, users |-> <<>>, deny |-> <<>>, allow |-> <<>>]
-NoReq == [c |-> -1, sid |-> <<>>, hdr |-> [maj |-> 0, min |-> 0, ty |-> 0, seq |-> 0, fl |-> 0, sid |-> <<>>, len |-> <<>>], b |-> <<>>, l |-> 0]
+NoReq == [c |-> -1, sid |-> <<>>, hdr |-> [maj |-> 0, min |-> 0, ty |-> 0, seq |-> 0, fl |-> 0, sid |-> <<>>, len |-> <<>>], b |-> <<>>, l |-> 0,
+          ck |-> <<>>, cb |-> <<>>, wire |-> <<>>]
 ObsInit == [req |-> NoReq, pend |-> FALSE, wr |-> 0, inv |-> 0, sinks |-> <<>>,
             t |-> << >>, reps |-> << >>, nfeed |-> << >>, iso |-> {}, bad |-> {}, noisy |-> FALSE, overlap |-> FALSE, acctpend |-> FALSE, acctdone |-> FALSE, acctb |-> <<>>,
             ofeeds |-> <<>>, osinks |-> <<>>, oack |-> {}, ojudged |-> FALSE]
@@ -48,6 +49,19 @@ ScopeIdx(c) == Get(conns, c, [k |-> 0]).k
 ScopeName(c) == cfg.secrets[ScopeIdx(c)].name
 \* scope names are TLA+ strings in the configuration; the trace also carries them as octets
 ScopeBytes(name) == LET ks == { k \in 1..Len(cfg.secrets) : cfg.secrets[k].name = name } IN cfg.secrets[CHOOSE k \in ks : TRUE].nameb
+
+\* ---- C19 on the reference server: the connection's secret is the key of the secret configuration the ADMISSION ORACLE
+\* binds the address to (not the key the server happens to use). A request the client obfuscated with that key and that
+\* is well-formed must not be answered by the reader's key-mismatch error packet; a request obfuscated with another key
+\* whose octets, read under the connection's secret, are inconsistent under every layout of the type must not reach a handler.
+CfgKeyOf(c) == LET a == conns[c].addr  k == Admit(cfg, a) IN IF k > 0 /\ ~AdmitAmbiguous(cfg, a) THEN cfg.secrets[k].key ELSE <<>>
+C19ReaderErr(r) ==           \* the reader answered request r itself (no handler ran)
+   LET key == CfgKeyOf(r.c) IN
+   key # <<>> /\ ~ClearFlag(r.hdr.fl) /\ r.ck = key /\ WellFormedRequest(r.hdr.ty, r.cb)
+C19Delivered(r) ==           \* request r reached a handler
+   LET key == CfgKeyOf(r.c) IN
+   key # <<>> /\ ~ClearFlag(r.hdr.fl) /\ r.ck # key
+   /\ LenMismatch(r.hdr.ty, FromWire(key, r.hdr.sid, Ver(r.hdr), r.hdr.seq, r.hdr.fl, r.wire))
 
 ErrStatus(ty) == CASE ty = 1 -> 7 [] ty = 2 -> 17 [] ty = 3 -> 2 [] OTHER -> -1
 
@@ -112,8 +126,10 @@ ObsWr(e) ==
                      !.oack = IF ~o.ojudged /\ lenok /\ w.ty = 3 /\ Dec("AcctReply", clr).ok /\ Dec("AcctReply", clr).v.status = 1
                               THEN @ \cup { << e.c, w.sid >> } ELSE @]
       ELSE IF o.pend /\ o.inv = 0
-      THEN \* written by the reader, not by a handler: the key-mismatch error packet (judged by C19 in the server family)
-           [o EXCEPT !.wr = @ + 1, !.reps = Put(@, key, Append(Get(@, key, <<>>), b))]
+      THEN \* written by the reader, not by a handler: the key-mismatch error packet (its form is judged by C19 in the
+           \* server family; here: it must not answer a request that is well-formed under the connection's secret)
+           [o EXCEPT !.wr = @ + 1, !.reps = Put(@, key, Append(Get(@, key, <<>>), b)),
+                     !.bad = @ \cup Tags({ << C19ReaderErr(r), "C19" >> })]
       ELSE [o EXCEPT !.wr = @ + 1, !.bad = @ \cup new,
                 !.acctpend = (o.pend /\ kind = "AcctReply" /\ status = 1 /\ Len(o.sinks) = 0),
                 !.acctb = r.b,
@@ -207,7 +223,7 @@ Next ==
         [] e.e = "feed" ->
              /\ (IF o.acctpend /\ ~o.noisy THEN PrintT(<< "PV", {"C12"}, sc, l, "norecord" >>) ELSE TRUE)
              /\ LET h == DecHeader(e.h).v  key == << e.c, h.sid >> IN
-                o' = [o EXCEPT !.acctpend = FALSE, !.acctdone = FALSE, !.req = [c |-> e.c, sid |-> h.sid, hdr |-> h, b |-> ClrTab[l], l |-> l],
+                o' = [o EXCEPT !.acctpend = FALSE, !.acctdone = FALSE, !.req = [c |-> e.c, sid |-> h.sid, hdr |-> h, b |-> ClrTab[l], l |-> l, ck |-> e.ck, cb |-> e.cb, wire |-> e.b],
                                !.pend = TRUE, !.wr = 0, !.inv = 0, !.sinks = <<>>,
                                !.ofeeds = IF o.overlap /\ ~o.ojudged THEN Append(@, [c |-> e.c, sid |-> h.sid, ty |-> h.ty, b |-> ClrTab[l]]) ELSE @,
                                !.nfeed = Put(@, key, Get(@, key, 0) + 1)]
@@ -215,7 +231,8 @@ Next ==
         [] e.e = "inv" ->
              /\ LET new == Tags({ << ~o.pend \/ o.inv >= 1, "C07" >>,
                                   << o.pend /\ ScopeIdx(e.c) = 0, "C13" >>,
-                                  << o.pend /\ e.b # o.req.b, "C03" >> })
+                                  << o.pend /\ e.b # o.req.b, "C03" >>,
+                                  << o.pend /\ C19Delivered(o.req), "C19" >> })
                 IN o' = Quiet([o EXCEPT !.inv = @ + 1, !.bad = @ \cup new]) /\ Report(Quiet([o EXCEPT !.bad = @ \cup new]).bad \ o.bad, e)
              /\ UNCHANGED << sc, cfg, conns, ms, div >>
         [] e.e = "overlap" ->
